@@ -97,7 +97,7 @@ def run_name(task):
 
         def read_stub(I2, a, ci, dt):
             reads.append(1)
-            return Ok(new_string(I2, b'x'))
+            return Ok(new_string(I2, b'# <block name="n">\nx\n# </block>\n'))
 
         def parse_stub(I2, a, ci, dt):
             g = I2.deref_value(a[0])
